@@ -252,6 +252,19 @@ func c06Sub(w *W) {
 		case k <= 8: // receive
 			w.Op("ctx%d Recv", c.idx)
 			doRecv(c)
+		case k == 9 && kind == "sub" && a%4 == 1 && len(ctxs) < 5:
+			// a context opened in the middle of the history, after the socket
+			// and other contexts have subscriptions and queued messages: it
+			// starts with no subscription (matches nothing) and shares none
+			nc, err := s.OpenContext()
+			if err != nil {
+				w.Failf("C06/open-context", "OpenContext: %v", err)
+				return
+			}
+			_ = nc.SetOption(mangos.OptionRecvDeadline, time.Millisecond)
+			ctxs = append(ctxs, &c6Ctx{idx: len(ctxs), c: nc})
+			w.Op("open context ctx%d", len(ctxs)-1)
+			w.Probe("context-opened-mid-history")
 		case k == 9:
 			// a Recv that is already blocked must survive a subscription change on
 			// its own context and still get the next matching message
@@ -454,8 +467,8 @@ func c06Pub(w *W) {
 }
 
 func init() {
-	register(&Scenario{Name: "sub-matching", Prop: "C06", Horizon: time.Hour, Weight: 3, Run: c06Sub})
-	register(&Scenario{Name: "pub-fanout", Prop: "C06", Horizon: time.Hour, Weight: 1, Run: c06Pub})
+	register(&Scenario{Name: "sub-matching", Prop: "C06", Horizon: time.Hour, Weight: 60, Run: c06Sub})
+	register(&Scenario{Name: "pub-fanout", Prop: "C06", Horizon: time.Hour, Weight: 20, Run: c06Pub})
 }
 
 // doRecvEmpty makes sure nothing is queued for c in the real socket either.
